@@ -100,6 +100,15 @@ def make_case(rng):
     case["mid_proxy"] = None
     if n > 1 and rng.random() < 0.25:
         case["mid_proxy"] = {"at": rng.randrange(1, n), "declared": rng.choice(MID_DECLARED)}
+    # one secure-scheme header sent twice (what a front-end that appends instead of replacing produces): agreeing or contradicting
+    if rng.random() < 0.12:
+        sec = SECURE[case["secure"]] if SECURE[case["secure"]] is not None else DEFAULT_SECURE
+        base = rng.choice(sorted(sec) or ["X-FORWARDED-PROTO"])
+        r = rng.choice(reqs)
+        vals = rng.choice([[sec.get(base, "https"), "http"], ["off", sec.get(base, "https")], [sec.get(base, "https")] * 2, ["http", "no"]])
+        for val in vals:
+            name = rng.choice([base, base.title(), base.lower()])
+            r["headers"].insert(rng.randint(0, len(r["headers"])), [name, val])
     return case
 
 
